@@ -4,7 +4,7 @@ configurations, judged by TLC (C02Trace)."""
 import random
 
 from bcverif import encode as E
-from bcverif.runner import pmap, setup_repo_import
+from bcverif.runner import pmap, setup_repo_import, suite_events
 
 PARENT_CFGS = [(0, 0), (1, 1), (2, 2), (1, 0), (0, 1), (2, 3), (1, 2), (0, 0), (1, 1)]
 
@@ -129,6 +129,8 @@ def run(chk):
         ul = rnd.sample(ul, 2500)
     parts = pmap(_unary_events, [(ul[i::32], G + 4, chk.seed * 71 + i) for i in range(32)])
     evs += [e for p in parts for e in p]
+    # leg S: the calls the repository's own tests make, judged with the same clauses
+    evs += suite_events(chk, "C02Trace")
     chk.validate("C02Trace", evs, shard=1200, label="algebra")
     chk.exhaustive = True
     chk.nontrivial = len({(str(e[1]), str(e[2])) for e in pairs}) + len(ul)
